@@ -1,3 +1,230 @@
-(* C06 property theorems (being filled in). *)
-From Coq Require Import List.
-From PV Require Import C06.Model.
+(* C06 property theorems: "Parameter learning returns the closed-form estimates".
+   Only statements, each closed by [exact] of a lemma proved in Proofs*.v, Print Assumptions underneath.
+   All theorems are unbounded: any data set (list of weighted rows), any cardinalities, any parent list.
+   Conventions: [a : asg] is a NAMED assignment variable -> state; [named_get d card ps T x a] reads a table
+   laid out for the parent order ps at child state x and the parents' states under a. *)
+From Coq Require Import List Bool Arith PeanoNat ZArith QArith Qcanon Permutation.
+From PV Require Import Base.Ravel C06.Model C06.Spec C06.Proofs C06.ProofsEst C06.ProofsEM C06.ProofsInv.
+Import ListNotations.
+Open Scope Qc_scope.
+
+(* ---- counts ------------------------------------------------------------------------------------ *)
+(* cell (x, pi) of state_counts = total weight of the rows with exactly that named configuration
+   (so 0 for a declared-but-unseen state or an unseen parent configuration) *)
+Theorem C06_counts : forall card cols rows child ps x a,
+  (x < card child)%nat -> in_states card ps a ->
+  named_get 0 card ps (state_counts card cols rows child ps) x a = cnt_xp cols rows child x ps a.
+Proof. exact counts_cell. Qed.
+Print Assumptions C06_counts.
+
+(* ... which is the NUMBER of such rows for an unweighted frame *)
+Theorem C06_counts_unweighted : forall cols rows child x ps a,
+  cnt_xp cols (unweighted rows) child x ps a =
+  Qc_of_nat (length (filter (fun r => (val cols r child =? x)%nat && agreesb cols ps a r) rows)).
+Proof. exact cnt_xp_unweighted. Qed.
+Print Assumptions C06_counts_unweighted.
+
+(* ---- maximum likelihood ------------------------------------------------------------------------ *)
+(* gp = the node's parents in the graph, in ANY order *)
+Theorem C06_mle_closed_form : forall card cols rows child gp x a,
+  child_in_range card cols rows child -> (x < card child)%nat -> in_states card gp a ->
+  cnt_p cols rows gp a <> 0 ->
+  named_get None card (sort_vars gp) (mle_cpd card cols rows child gp) x a
+  = Some (cnt_xp cols rows child x gp a / cnt_p cols rows gp a).
+Proof. exact mle_closed_form. Qed.
+Print Assumptions C06_mle_closed_form.
+
+(* unseen parent configuration (no row of non-zero weight has it): uniform over the declared child states *)
+Theorem C06_mle_uniform_unseen : forall card cols rows child gp x a,
+  (x < card child)%nat -> in_states card gp a ->
+  (forall rw, In rw rows -> agreesb cols gp a (fst rw) = true -> snd rw = 0) ->
+  named_get None card (sort_vars gp) (mle_cpd card cols rows child gp) x a = Some (1 / Qc_of_nat (card child)).
+Proof. exact mle_uniform_unseen. Qed.
+Print Assumptions C06_mle_uniform_unseen.
+
+(* ---- Bayesian estimator: (count + alpha) / (total + sum alpha), numpy's nan ([None]) iff the total is 0 ---- *)
+Theorem C06_bayes_closed_form_k2 : forall card cols rows child gp x a,
+  child_in_range card cols rows child -> (x < card child)%nat -> in_states card gp a ->
+  exists T, bayes_cpd card cols rows child gp K2 = Some T /\
+    named_get None card (sort_vars gp) T x a
+    = spec_posterior (cnt_xp cols rows child x gp a) (cnt_p cols rows gp a) 1 (Qc_of_nat (card child) * 1).
+Proof. intros card cols rows child gp x a. exact (bayes_uniform_prior card cols rows child gp K2 1 x a eq_refl). Qed.
+Print Assumptions C06_bayes_closed_form_k2.
+
+(* BDeu: alpha = ess / (r * q), r = child cardinality, q = number of parent configurations *)
+Theorem C06_bayes_closed_form_bdeu : forall card cols rows child gp ess x a,
+  child_in_range card cols rows child -> (x < card child)%nat -> in_states card gp a ->
+  let alpha := ess / (Qc_of_nat (card child) * Qc_of_nat (prod (map card (sort_vars gp)))) in
+  exists T, bayes_cpd card cols rows child gp (BDeu ess) = Some T /\
+    named_get None card (sort_vars gp) T x a
+    = spec_posterior (cnt_xp cols rows child x gp a) (cnt_p cols rows gp a) alpha (Qc_of_nat (card child) * alpha).
+Proof.
+  intros card cols rows child gp ess x a.
+  exact (bayes_uniform_prior card cols rows child gp (BDeu ess) _ x a eq_refl).
+Qed.
+Print Assumptions C06_bayes_closed_form_bdeu.
+
+(* explicit Dirichlet pseudo-counts P (a table in the sorted-parent layout, shape checked) *)
+Theorem C06_bayes_closed_form_dirichlet : forall card cols rows child gp P x a,
+  shape_ok (card child) (prod (map card (sort_vars gp))) P = true ->
+  child_in_range card cols rows child -> (x < card child)%nat -> in_states card gp a ->
+  exists T, bayes_cpd card cols rows child gp (Dirichlet P) = Some T /\
+    let j := ravel (map card (sort_vars gp)) (map a (sort_vars gp)) in
+    named_get None card (sort_vars gp) T x a
+    = spec_posterior (cnt_xp cols rows child x gp a) (cnt_p cols rows gp a)
+                     (tget 0 P x j) (sumQ (map (fun x' => tget 0 P x' j) (seq 0 (card child)))).
+Proof. exact bayes_dirichlet. Qed.
+Print Assumptions C06_bayes_closed_form_dirichlet.
+
+(* ---- the fitted CPDs validate ------------------------------------------------------------------ *)
+(* MLE: right shape, every column (seen or unseen configuration) finite and summing to exactly 1 *)
+Theorem C06_columns_normalised : forall card cols rows child gp,
+  nonneg_weights rows -> (0 < card child)%nat ->
+  cpd_valid (card child) (prod (map card (sort_vars gp))) (mle_cpd card cols rows child gp).
+Proof. exact mle_valid. Qed.
+Print Assumptions C06_columns_normalised.
+
+(* Bayesian / fit_update: valid whenever no column total (counts + pseudo-counts) is zero *)
+Theorem C06_columns_normalised_bayes : forall card cols rows child gp pr P,
+  pseudo_counts (card child) (prod (map card (sort_vars gp))) pr = Some P ->
+  (forall j, (j < prod (map card (sort_vars gp)))%nat ->
+     sumQ (map (fun x => tget 0 (state_counts card cols rows child (sort_vars gp)) x j + tget 0 P x j)
+               (seq 0 (card child))) <> 0) ->
+  exists T, bayes_cpd card cols rows child gp pr = Some T /\
+            cpd_valid (card child) (prod (map card (sort_vars gp))) T.
+Proof. exact bayes_valid. Qed.
+Print Assumptions C06_columns_normalised_bayes.
+
+(* every node of the network gets a CPD (also through the estimators that rebuild the network from its edges)
+   and nothing else does *)
+Theorem C06_every_node_fitted : forall rebuilt nodes edges v,
+  In v nodes -> In v (estimated_nodes rebuilt nodes edges).
+Proof. exact every_node_estimated. Qed.
+Print Assumptions C06_every_node_fitted.
+
+Theorem C06_no_extra_node_fitted : forall rebuilt nodes edges v,
+  (forall e, In e edges -> In (fst e) nodes /\ In (snd e) nodes) ->
+  In v (estimated_nodes rebuilt nodes edges) -> In v nodes.
+Proof. exact estimated_nodes_no_extra. Qed.
+Print Assumptions C06_no_extra_node_fitted.
+
+(* before fix: commits cccea0b / aa23a9c an isolated node got no CPD *)
+Theorem C06_every_node_fitted_prefix_refuted :
+  exists nodes edges v, In v nodes /\ ~ In v (estimated_nodes_prefix nodes edges).
+Proof. exists [0; 1; 2]%nat, [(0, 1)]%nat, 2%nat. split; [simpl; auto|]. vm_compute. intros [H|[H|[]]]; discriminate. Qed.
+Print Assumptions C06_every_node_fitted_prefix_refuted.
+
+(* ---- invariances (equality of the whole fitted table, all three estimators) ----------------------- *)
+Theorem C06_row_perm_invariant : forall card cols rows rows', Permutation rows rows' ->
+  (forall child gp, mle_cpd card cols rows child gp = mle_cpd card cols rows' child gp) /\
+  (forall child gp pr, bayes_cpd card cols rows child gp pr = bayes_cpd card cols rows' child gp pr) /\
+  (forall gp prev n, fit_update_cpd card cols rows gp prev n = fit_update_cpd card cols rows' gp prev n).
+Proof. exact row_perm_invariant. Qed.
+Print Assumptions C06_row_perm_invariant.
+
+(* the same data with its columns in another order: every row is the same set of (column, state) pairs *)
+Theorem C06_col_perm_invariant : forall card cols cols' rows rows',
+  NoDup cols -> Forall2 (same_row_upto_columns cols cols') rows rows' ->
+  (forall child gp, mle_cpd card cols rows child gp = mle_cpd card cols' rows' child gp) /\
+  (forall child gp pr, bayes_cpd card cols rows child gp pr = bayes_cpd card cols' rows' child gp pr) /\
+  (forall gp prev n, fit_update_cpd card cols rows gp prev n = fit_update_cpd card cols' rows' gp prev n).
+Proof. exact col_perm_invariant. Qed.
+Print Assumptions C06_col_perm_invariant.
+
+(* the order in which the graph lists a node's parents *)
+Theorem C06_parent_order_invariant : forall card cols rows gp gp', Permutation gp gp' ->
+  (forall child, mle_cpd card cols rows child gp = mle_cpd card cols rows child gp') /\
+  (forall child pr, bayes_cpd card cols rows child gp pr = bayes_cpd card cols rows child gp' pr) /\
+  (forall prev n, fit_update_cpd card cols rows gp prev n = fit_update_cpd card cols rows gp' prev n).
+Proof. exact parent_order_invariant. Qed.
+Print Assumptions C06_parent_order_invariant.
+
+(* ---- fit_update = Bayesian fit with prior = previous CPD (by NAMED parent configuration) x n_prev -------- *)
+(* holds for ANY order in which the previous CPD lists its parents (what defect D4 broke) *)
+Theorem C06_fit_update_eq_bayes : forall card cols rows gp prev n x a,
+  Permutation gp (c_parents prev) ->
+  shape_ok (card (c_var prev)) (prod (map card (c_parents prev))) (c_table prev) = true ->
+  child_in_range card cols rows (c_var prev) -> (x < card (c_var prev))%nat -> in_states card gp a ->
+  exists T, fit_update_cpd card cols rows gp prev n = Some T /\
+    named_get None card (sort_vars gp) T x a
+    = spec_posterior (cnt_xp cols rows (c_var prev) x gp a) (cnt_p cols rows gp a)
+        (n * named_get 0 card (c_parents prev) (c_table prev) x a)
+        (sumQ (map (fun x' => n * named_get 0 card (c_parents prev) (c_table prev) x' a)
+                   (seq 0 (card (c_var prev))))).
+Proof. exact fit_update_closed_form. Qed.
+Print Assumptions C06_fit_update_eq_bayes.
+
+(* the pre-5aac298 code (existing CPD's columns used in its own parent order) violates that statement:
+   P(A | C, B) declared with evidence [C; B], |B| = 3, |C| = 2, three rows, n_prev = 4 (defect D4) *)
+Definition d4_card (v : var) : nat := match v with O => 2 | 1 => 3 | _ => 2 end%nat.
+Definition d4_prev : cpd :=
+  {| c_var := 0%nat; c_parents := [2; 1]%nat;
+     c_table := [[Q2Qc (1#8); Q2Qc (1#4); Q2Qc (3#8); Q2Qc (1#2); Q2Qc (5#8); Q2Qc (3#4)];
+                 [Q2Qc (7#8); Q2Qc (3#4); Q2Qc (5#8); Q2Qc (1#2); Q2Qc (3#8); Q2Qc (1#4)]] |}.
+Definition d4_rows : list wrow := unweighted [[0; 1; 0]; [0; 1; 0]; [1; 2; 1]]%nat.
+Definition d4_a (v : var) : nat := match v with 1 => 1 | _ => 0 end%nat.   (* B = 1, C = 0 *)
+
+Theorem C06_fit_update_presort_refuted :
+  exists T, fit_update_cpd_unsorted d4_card [0; 1; 2]%nat d4_rows [2; 1]%nat d4_prev (Q2Qc 4) = Some T /\
+    named_get None d4_card (sort_vars [2; 1]%nat) T 0%nat d4_a
+    <> spec_posterior (cnt_xp [0; 1; 2]%nat d4_rows 0%nat 0%nat [2; 1]%nat d4_a) (cnt_p [0; 1; 2]%nat d4_rows [2; 1]%nat d4_a)
+         (Q2Qc 4 * named_get 0 d4_card [2; 1]%nat (c_table d4_prev) 0%nat d4_a)
+         (sumQ (map (fun x' => Q2Qc 4 * named_get 0 d4_card [2; 1]%nat (c_table d4_prev) x' d4_a) (seq 0 2)%nat)).
+Proof. eexists. split; [vm_compute; reflexivity|]. vm_compute. discriminate. Qed.
+Print Assumptions C06_fit_update_presort_refuted.
+
+(* ---- EM -------------------------------------------------------------------------------------------- *)
+(* without latent variables the M-step of an EM iteration IS the maximum-likelihood estimate, whatever
+   the current CPDs (clamp = the 1e-10 floor of _get_log_likelihood, any positive value) *)
+Theorem C06_em_no_latent_is_mle : forall card cols rows cpds clamp child gp, 0 < clamp ->
+  m_step card cols rows [] cpds clamp child gp = mle_cpd card cols (unweighted rows) child gp.
+Proof. exact em_no_latent_is_mle. Qed.
+Print Assumptions C06_em_no_latent_is_mle.
+
+(* C06_em_monotone, FULL STATEMENT (not proved here):
+     forall card cols rows lats cpds clamp, valid network cpds ->
+       loglik (cpds after one EM iteration) >= loglik cpds
+   where loglik theta = sum over rows of ln (sum over latent completions c of prod of CPD values at (row, c)).
+   This is a statement over the reals (ln; Gibbs' inequality / Jensen: the M-step maximises the expected
+   complete-data log-likelihood, KL >= 0); the model is over exact rationals and Coq's Reals would bring the
+   classical axioms in.  Out of scope for the proof; harness/c06.py checks it on pgmpy run by run as a TEST
+   (likelihood after max_iter = 1, 2, 3 with the same init/seed is non-decreasing).  Note also that pgmpy's
+   1e-10 floor makes the statement false in principle for CPD entries below 1e-10.
+   What IS proved, exactly: the E-step is a posterior -- for every distinct data row the weights given to its
+   latent completions sum to the row's multiplicity (mass is neither created nor lost), the weights being
+   likelihood(row, c) / sum_c' likelihood(row, c') -- and the M-step is the weighted MLE (by definition of
+   m_step), to which C06_mle_closed_form / C06_columns_normalised apply. *)
+Theorem C06_em_monotone_partial : forall card cols rows lats cpds clamp u, 0 < clamp ->
+  let lc := completions (map card lats) in
+  let lik := fun c => joint_clamped card cpds clamp (val (cols ++ lats) (u ++ c)) in
+  lc <> [] ->
+  sumQ (map (fun c => lik c / sumQ (map lik lc) * Qc_of_nat (count_occ rows_dec rows u)) lc)
+  = Qc_of_nat (count_occ rows_dec rows u).
+Proof. exact e_step_row_mass. Qed.
+Print Assumptions C06_em_monotone_partial.
+
+(* ---- non-vacuity: a concrete frame meeting the hypotheses (the D4 data, A's parents listed as [C; B]) ---- *)
+Example ex_hyps :
+  child_in_range d4_card [0; 1; 2]%nat d4_rows 0%nat /\ in_states d4_card [2; 1]%nat d4_a /\
+  nonneg_weights d4_rows /\ cnt_p [0; 1; 2]%nat d4_rows [2; 1]%nat d4_a <> 0 /\
+  Permutation [1; 2]%nat (c_parents d4_prev) /\
+  shape_ok (d4_card 0%nat) (prod (map d4_card (c_parents d4_prev))) (c_table d4_prev) = true.
+Proof.
+  repeat split.
+  - intros rw H. simpl in H. destruct H as [<-|[<-|[<-|[]]]]; vm_compute; auto.
+  - intros v H. simpl in H. destruct H as [<-|[<-|[]]]; vm_compute; auto.
+  - intros rw H. simpl in H. destruct H as [<-|[<-|[<-|[]]]]; vm_compute; discriminate.
+  - vm_compute. discriminate.
+  - apply perm_swap.
+Qed.
+(* the fitted value there: P(A=0 | B=1, C=0) = 2/2 by MLE, and the unseen configuration B=0,C=0 is uniform *)
+Example ex_mle_value :
+  named_get None d4_card (sort_vars [2; 1]%nat) (mle_cpd d4_card [0; 1; 2]%nat d4_rows 0%nat [2; 1]%nat) 0%nat d4_a = Some 1
+  /\ named_get None d4_card (sort_vars [2; 1]%nat) (mle_cpd d4_card [0; 1; 2]%nat d4_rows 0%nat [2; 1]%nat) 0%nat (fun _ => O)
+     = Some (Q2Qc (1#2)).
+Proof. split; vm_compute; f_equal; apply Qc_is_canon; reflexivity. Qed.
+(* the repaired fit_update on the D4 input agrees with the closed form: (2 + 4 * 1/4) / (2 + 4) = 1/2 *)
+Example ex_fit_update_value :
+  exists T, fit_update_cpd d4_card [0; 1; 2]%nat d4_rows [2; 1]%nat d4_prev (Q2Qc 4) = Some T /\
+            named_get None d4_card (sort_vars [2; 1]%nat) T 0%nat d4_a = Some (Q2Qc (1#2)).
+Proof. eexists. split; [vm_compute; reflexivity|]. vm_compute. f_equal. apply Qc_is_canon. reflexivity. Qed.
